@@ -1,3 +1,5 @@
 import UvModel.Heap
 import UvModel.Timer
 import UvModel.Props.C04Heap
+import UvModel.Props.C20
+import UvModel.Props.C04Timer
